@@ -11,13 +11,21 @@
     error at a generated call index while all clients keep exchanging data.
     Server.service() must never raise, the hit connection must be cut off, and every
     other connection must get all of its bytes echoed back.
+(c) connection set-up fault points: the peer goes away (RST, or the connection dies with another connection-level
+    errno) right after the TCP connection is established, at every point of the adoption of the new socket: between
+    any two of the address queries (getpeername / getsockname) hio makes on it, and at the TLS wrap step - on the
+    server side (new connection arriving on a Server / ServerTls that has healthy siblings) and on the client side
+    (Client / ClientTls service loop whose caller reopens on cutoff).  Enumerated completely and mixed into the
+    generated schedules.
 """
+import errno
 import itertools
+import ssl
 
 from hypothesis import strategies as st
 
 from vlib import fakenet
-from vlib.core import Result
+from vlib.core import Result, hio_frame
 
 PID = "C10"
 LEVEL = "fault_enumeration"
@@ -28,10 +36,186 @@ RULE = ("cases: (a) enumeration of 10 errors x {send, recv, handshake} x 4 endpo
         "distinct = canonical hash of the case")
 ASSUMPTIONS = ["errors are injected by the harness' in-memory sockets with the same exception types and errno values the "
                "kernel / ssl module raise (OSError(errno), ssl.SSLEOFError(SSL_ERROR_EOF))",
-               "only the error kinds the property lists are injected; other errnos are allowed to propagate"]
+               "only the error kinds the property lists are injected; other errnos are allowed to propagate",
+               "a connection that died (RST / timed out) behaves as on Linux (verified on real loopback sockets): getpeername "
+               "raises ENOTCONN, getsockname still answers, recv delivers bytes already queued and then raises the error left "
+               "on the socket, send raises EPIPE; the TLS wrap step probes the socket the way ssl.SSLSocket._create does "
+               "(getpeername; on ENOTCONN a recv(1) whose error propagates, and whose data makes it raise "
+               "ssl.SSLError(ENOTCONN, 'Closed before TLS handshake with data in recv buffer.'))"]
 
 ERRS = fakenet.ERRNOS + ["SSLEOF"]
 CLASSES = ["Client", "ClientTls", "Remoter", "RemoterTls"]
+
+
+# ------------------------------------------------------------------ connection set-up fault points
+
+class C10Socket(fakenet.FakeSocket):
+    """FakeSocket whose connection can die (peer RST, or another connection-level error left on the socket) right after
+    it was established: after `die_at` = k address queries (getpeername / getsockname) made on it, or when the TLS wrap
+    step begins (`die_at` = "wrap").  A dead connection behaves as a Linux TCP socket in CLOSE state does: getpeername
+    raises ENOTCONN, getsockname still answers, recv hands out what is queued and then raises the error, send raises EPIPE."""
+
+    def __init__(self, *pa, **kwa):
+        super().__init__(*pa, **kwa)
+        self.die_at = None
+        self.die_err = "ECONNRESET"
+        self.addr_calls = 0
+        self.landed = None            # where the death landed: ["addr", k] | ["wrap"] | ["end"]
+        self.connect_script = []      # client side: ["wait"] tokens = connect_ex reports in progress
+        self.connect_calls = 0
+        self.established = False
+
+    def die(self, where):
+        if self.landed is None:
+            self.landed = where
+            self.reset_by_peer()
+            if self.peer is not None:
+                self.peer.close()
+
+    def _addr_query(self):
+        if isinstance(self.die_at, int) and self.landed is None and self.addr_calls >= self.die_at:
+            self.die(["addr", self.addr_calls])
+        self.addr_calls += 1
+
+    def getpeername(self):
+        self._addr_query()
+        try:
+            return super().getpeername()
+        except OSError:
+            self.calls.append(("getpeername-fail", "ENOTCONN"))
+            raise
+
+    def getsockname(self):
+        self._addr_query()
+        return super().getsockname()
+
+    def recv(self, bs):
+        if (self.landed is not None and self.die_err != "ECONNRESET" and not self.closed and not self.inbuf
+                and not self.recv_script):
+            self.calls.append(("recv-fail", self.die_err))
+            raise fakenet.make_error(self.die_err, self.tls)
+        return super().recv(bs)
+
+    def do_handshake(self):
+        if self.landed is not None:
+            raise fakenet.make_error(self.die_err, True)
+        return super().do_handshake()
+
+    def connect_ex(self, ha):
+        self.connect_calls += 1
+        if self.closed:
+            raise OSError(errno.EBADF, "Bad file descriptor")
+        if self.landed is not None:
+            return errno.ECONNRESET
+        if self.connect_script:
+            self.connect_script.pop(0)
+            return errno.EINPROGRESS if self.connect_calls == 1 else errno.EALREADY
+        self.established = True
+        return 0
+
+
+class C10TlsContext(fakenet.FakeTlsContext):
+    """FakeTlsContext whose wrap_socket probes the socket the way ssl.SSLSocket._create does before it wraps it."""
+
+    def wrap_socket(self, sock, server_side=True, do_handshake_on_connect=False, **kwa):
+        if getattr(sock, "die_at", None) == "wrap":
+            sock.die(["wrap"])
+        try:
+            sock.getpeername()
+        except OSError as ex:
+            if ex.errno != errno.ENOTCONN:
+                raise
+            try:
+                data = sock.recv(1)
+            except (BlockingIOError, ssl.SSLWantReadError):
+                data = b""
+            except OSError as ex2:
+                if ex2.errno not in (errno.ENOTCONN, errno.EINVAL):
+                    raise
+                data = b""
+            if data:
+                raise ssl.SSLError(errno.ENOTCONN, "Closed before TLS handshake with data in recv buffer.")
+        return super().wrap_socket(sock, server_side=server_side, do_handshake_on_connect=do_handshake_on_connect, **kwa)
+
+
+def c10_pair(srv, port):
+    """New connection to the fake servant whose both ends are C10Sockets; returns (client end, server end)."""
+    a = C10Socket("c%d" % port, ("127.0.0.1", port), (srv.eha[0], srv.eha[1]))
+    b = C10Socket("s%d" % port, (srv.eha[0], srv.eha[1]), ("127.0.0.1", port))
+    a.peer, b.peer = b, a
+    srv.pending.append(b)
+    return a, b
+
+
+class C10Dialer(fakenet.tcpc.Client):
+    """tcp.Client whose open() takes its socket from the harness instead of the kernel; reopen / accept / connect /
+    service* / close are the real code."""
+
+    def __init__(self, factory, **kwa):
+        self.c10_factory = factory
+        super().__init__(**kwa)
+
+    def open(self):
+        self.accepted = False
+        self.connected = False
+        self.cutoff = False
+        self.cs = self.c10_factory()
+        self.cs.setblocking(0)
+        self.opened = True
+        return True
+
+
+class C10DialerTls(C10Dialer, fakenet.tcpc.ClientTls):
+    def __init__(self, factory, **kwa):
+        kwa.setdefault("context", C10TlsContext())
+        super().__init__(factory, **kwa)
+
+
+SETUP_FRAMES = ("serviceAxes", "wrap", "accept")
+
+
+def raise_sig(default, who, ex, armed):
+    """Signature of an exception that escaped servicing: when a connection died while it was being adopted and the
+    exception comes out of the adoption code, name the place; otherwise the check's long-standing signature."""
+    fn = (hio_frame(ex) or "").rsplit(":", 1)[-1]
+    if armed and fn in SETUP_FRAMES:
+        return "C10/setup-fault-raised:%s:%s" % (who, fn)
+    return default
+
+
+def arrive_late(srv, lates, stepno, nsteps, out):
+    for i, lt in enumerate(lates):
+        if lt["step"] % nsteps != stepno:
+            continue
+        a, b = c10_pair(srv, 41901 + i)
+        b.die_at = lt["at"]
+        b.die_err = lt.get("err") or "ECONNRESET"
+        if lt.get("data"):
+            a.send(lt["data"])
+        out.append((41901 + i, a, b))
+
+
+def land_late(late_socks):
+    """The peer of every late connection is gone by the end of the service pass that adopted it, at the latest."""
+    for _port, _a, b in late_socks:
+        b.die(["end"])
+
+
+def judge_late(srv, late_socks, r, who):
+    for port, _a, b in late_socks:
+        ca = ("127.0.0.1", port)
+        cx = getattr(srv, "cxes", {}).get(ca)
+        if cx is not None and cx.cs is b and not getattr(cx, "aborted", False):
+            r.fail("C10/dead-connection-still-pending:%s" % who, "the connection from port %d died (%s) while it was being "
+                   "adopted but the server still holds it among its pending handshakes" % (port, b.landed))
+            return False
+        ix = srv.ixes.get(ca)
+        if ix is not None and ix.cs is b and not ix.cutoff:
+            r.fail("C10/dead-connection-not-cutoff:%s" % who, "the connection from port %d died (%s, %s) but after 10+ more "
+                   "service passes cutoff is %r" % (port, b.landed, b.die_err, ix.cutoff))
+            return False
+        r.labels.append("dies-during-adoption:%s" % b.landed[0])
+    return True
 
 
 def run_matrix(case, r):
@@ -124,14 +308,19 @@ def run_schedule(case, r):
     sent = [b""] * n
     got = [bytearray() for _ in range(n)]
     pending_sibling = False
+    lates = case.get("late", [])
+    late_socks = []
 
     def step():
         nonlocal pending_sibling
         try:
             srv.service()
         except Exception as ex:      # noqa: BLE001
-            r.fail("C10/server-service-raised", "Server.service() raised %s(%s)" % (type(ex).__name__, ex))
+            r.fail(raise_sig("C10/server-service-raised", "Server", ex, any(b.landed for _p, _a, b in late_socks)),
+                   "Server.service() raised %s(%s)%s" % (type(ex).__name__, ex, "".join(
+                       "; the connection from port %d died at %s" % (p_, b.landed) for p_, _a, b in late_socks if b.landed)))
             return False
+        land_late(late_socks)
         for ca, ix in list(srv.ixes.items()):
             if ix.rxbs and not ix.cutoff:
                 ix.tx(bytes(ix.rxbs))
@@ -148,6 +337,7 @@ def run_schedule(case, r):
 
     resets = {f["conn"] % n: f["index"] for f in case.get("resets", [])}
     for stepno, pays in enumerate(case["steps"]):
+        arrive_late(srv, lates, stepno, len(case["steps"]), late_socks)
         for j, p in enumerate(pays[:n]):
             if p and not getattr(ssocks[j], "rst", False):
                 clients[j].send(p)
@@ -182,7 +372,9 @@ def run_schedule(case, r):
             r.fail("C10/sibling-not-served", "connection %d (no fault) sent %d bytes, got %d echoed" % (
                 j, len(sent[j]), len(got[j])))
             return
-    r.nontrivial = pending_sibling
+    if not judge_late(srv, late_socks, r, "Server"):
+        return
+    r.nontrivial = pending_sibling or bool(late_socks)
     r.labels.append("schedule")
     if pending_sibling:
         r.labels.append("fault-with-sibling-traffic")
@@ -193,10 +385,17 @@ def run_tls_schedule(case, r):
     then success or a connection-level error); a peer may give up - also in the middle of its handshake - and connect
     again from the very same address before the server has serviced anything."""
     n = case["n"]
-    srv = fakenet.FakeServantTls(bs=64)
+    srv = fakenet.FakeServantTls(bs=64, context=C10TlsContext())
     live = {}          # conn index -> [client sock, server sock, handshake outcome]
     sent = {}
     got = {}
+    lates = case.get("late", [])
+    late_socks = []
+
+    def raised(ex):
+        r.fail(raise_sig("C10/server-service-raised(tls)", "ServerTls", ex, any(b.landed for _p, _a, b in late_socks)),
+               "ServerTls.service() raised %s(%s)%s" % (type(ex).__name__, ex, "".join(
+                   "; the connection from port %d died at %s" % (p_, b.landed) for p_, _a, b in late_socks if b.landed)))
 
     def connect(j, hs):
         c = srv.connect(41000 + j)
@@ -224,6 +423,7 @@ def run_tls_schedule(case, r):
             b.reset_by_peer()
             c.close()
             connect(j, rc["hs"])
+        arrive_late(srv, lates, stepno, len(case["steps"]), late_socks)
         for j, p in enumerate(pays[:n]):
             c, b, outcome = live[j]
             if p and not outcome and not getattr(b, "rst", False):
@@ -232,8 +432,9 @@ def run_tls_schedule(case, r):
         try:
             srv.service()
         except Exception as ex:      # noqa: BLE001
-            r.fail("C10/server-service-raised(tls)", "ServerTls.service() raised %s(%s)" % (type(ex).__name__, ex))
+            raised(ex)
             return
+        land_late(late_socks)
         for ca, ix in list(srv.ixes.items()):
             if ix.rxbs and not ix.cutoff:
                 ix.tx(bytes(ix.rxbs))
@@ -248,7 +449,7 @@ def run_tls_schedule(case, r):
         try:
             srv.service()
         except Exception as ex:      # noqa: BLE001
-            r.fail("C10/server-service-raised(tls)", "ServerTls.service() raised %s(%s)" % (type(ex).__name__, ex))
+            raised(ex)
             return
         for ca, ix in list(srv.ixes.items()):
             if ix.rxbs and not ix.cutoff:
@@ -276,12 +477,86 @@ def run_tls_schedule(case, r):
             r.fail("C10/sibling-not-served(tls)", "connection %d (handshake succeeds, no fault) sent %d bytes, got %d echoed" % (
                 j, len(sent[j]), len(got[j])))
             return
-    r.nontrivial = replaced_pending or any(o for _c, _b, o in live.values())
+    if not judge_late(srv, late_socks, r, "ServerTls"):
+        return
+    r.nontrivial = replaced_pending or any(o for _c, _b, o in live.values()) or bool(late_socks)
     r.labels.append("tls-schedule")
     if replaced_pending:
         r.labels.append("reconnect-from-same-address-while-handshake-pending")
     if any(o for _c, _b, o in live.values()):
         r.labels.append("handshake-fails")
+
+
+def run_dial(case, r):
+    """One Client / ClientTls (real reopen / accept / connect / wrap / handshake / service code on harness sockets) in the
+    service loop of a caller that reopens on cutoff.  Each connection attempt follows the next generated spec: connect_ex
+    would-blocks, then the connection is established and may die after k address queries, at the TLS wrap step, or at the
+    latest at the end of the service pass that saw it established; TLS handshakes are scripted.  After the generated
+    attempts the peer is healthy and echoes."""
+    tls = bool(case["tls"])
+    who = "ClientTls" if tls else "Client"
+    specs = case["attempts"]
+    pay = case["pay"]
+    socks = []
+
+    def factory():
+        i = len(socks)
+        spec = specs[i] if i < len(specs) else {}
+        a = C10Socket("c%d" % i, ("127.0.0.1", 42000 + i), ("127.0.0.1", 8080))
+        b = C10Socket("s%d" % i, ("127.0.0.1", 8080), ("127.0.0.1", 42000 + i))
+        a.peer, b.peer = b, a
+        a.connect_script = [["wait"]] * spec.get("waits", 0)
+        a.die_at = spec.get("die_at")
+        a.die_err = spec.get("err") or "ECONNRESET"
+        if spec.get("greet") and a.die_at is not None:
+            b.send(spec["greet"])      # bytes the peer wrote before it went away
+        hs = spec.get("hs") or [0, None]
+        a.hs_script = [["want"]] * hs[0] + ([["fail", hs[1]]] if hs[1] else [])
+        socks.append((a, b, spec))
+        return a
+
+    E = (C10DialerTls if tls else C10Dialer)(factory, ha=("127.0.0.1", 8080), bs=32)
+    E.reopen()
+    fed = None
+    for _ in range(12 * len(specs) + 12):
+        try:
+            E.service()
+        except Exception as ex:      # noqa: BLE001
+            dead = [a.landed for a, _b, _s in socks if a.landed]
+            r.fail(raise_sig("C10/client-service-raised:%s" % who, who, ex, bool(dead)),
+                   "%s.service() raised %s(%s); connection attempts died at %s" % (who, type(ex).__name__, ex, dead))
+            return
+        for a, b, spec in socks:
+            if a.established and a.die_at is not None:
+                a.die(["end"])         # the peer is gone by the end of the pass that saw the connection established
+            if not b.closed and b.inbuf:
+                data = bytes(b.inbuf)
+                del b.inbuf[:]
+                b.send(data)
+        # the caller
+        if E.cutoff:
+            E.reopen()
+            del E.txbs[:]              # what was queued for the lost connection is not sent on the next one
+        elif E.connected and E.cs is not fed:
+            fed = E.cs
+            E.clearRxbs()
+            E.tx(pay)
+    for a, _b, spec in socks:
+        if a.landed is not None:
+            r.labels.append("dial:dies:%s" % a.landed[0])
+            if E.cs is a and E.connected and not E.cutoff:
+                r.fail("C10/dead-connection-not-cutoff:%s" % who, "the connection died (%s, %s) but after 10+ more service "
+                       "passes the client still reports connected and cutoff is %r" % (a.landed, a.die_err, E.cutoff))
+                return
+    if len(socks) > len(specs):
+        # the client got as far as a connection to the healthy peer: that one has to work
+        if not E.connected or bytes(E.rxbs) != pay:
+            r.fail("C10/healthy-connection-not-served:%s" % who, "after %d failed attempt(s) the peer was healthy, but connected "
+                   "is %r and %d of %d bytes came back" % (len(specs), E.connected, len(E.rxbs), len(pay)))
+            return
+        r.labels.append("dial:recovers")
+    r.labels.append("dial")
+    r.nontrivial = any(a.landed is not None and a.landed[0] != "end" for a, _b, _s in socks)
 
 
 def run_case(case):
@@ -291,6 +566,8 @@ def run_case(case):
         r.nontrivial = True
     elif case["k"] == "tls-schedule":
         run_tls_schedule(case, r)
+    elif case["k"] == "dial":
+        run_dial(case, r)
     else:
         run_schedule(case, r)
     return r
@@ -307,7 +584,41 @@ def enumerate_cases(tier, shard, nshards):
             if k % nshards == shard:
                 yield {"k": "matrix", "cls": cls, "call": call, "err": err, "pos": pos}
             k += 1
-    return [("errno x call x class matrix", cells(), True)]
+
+    def setup_cells():
+        k = 0
+        pay = [b"sibling-%d" % j for j in range(4)]
+        for tls, at, data in itertools.product([False, True], [0, 1, 2, 3, 4, 5, "wrap"], [b"", b"\x16\x03\x01"]):
+            if at == "wrap" and not tls:
+                continue
+            # the error left on the socket only shows where the adoption code reads from it: the TLS wrap step
+            errs = fakenet.ERRNOS if (tls and at == "wrap" and not data) else ["ECONNRESET"]
+            for err in errs:
+                late = [{"step": 1, "at": at, "err": err, "data": data}]
+                if k % nshards == shard:
+                    if tls:
+                        yield {"k": "tls-schedule", "n": 2, "hs": [[0, None]], "reconn": [], "steps": [pay, pay, pay], "late": late}
+                    else:
+                        yield {"k": "schedule", "n": 2, "faults": [], "resets": [], "wl": False, "early_reset": False,
+                               "steps": [pay, pay, pay], "late": late}
+                k += 1
+                for waits in (0, 1):
+                    if k % nshards == shard:
+                        yield {"k": "dial", "tls": tls, "pay": b"payload", "attempts": [
+                            {"waits": waits, "die_at": at, "err": err, "greet": data, "hs": [0, None]}]}
+                    k += 1
+    return [("errno x call x class matrix", cells(), True),
+            ("connection set-up fault points", setup_cells(), True)]
+
+
+DIE_AT = [None, 0, 1, 2, 3, 4, 5, "wrap"]
+
+
+def late_strategy():
+    """Extra connections that arrive at a generated step and die while the server adopts them."""
+    return st.lists(st.fixed_dictionaries({"step": st.integers(0, 5), "at": st.sampled_from(DIE_AT[1:]),
+                                           "err": st.sampled_from(["ECONNRESET"] * 3 + fakenet.ERRNOS),
+                                           "data": st.one_of(st.just(b""), st.binary(min_size=1, max_size=6))}), max_size=2)
 
 
 def schedule_strategy():
@@ -319,6 +630,7 @@ def schedule_strategy():
                                   "resets": st.lists(st.fixed_dictionaries({"conn": st.integers(0, 3), "index": st.integers(0, 5)}),
                                                      max_size=2, unique_by=lambda f: f["conn"]),
                                   "wl": st.booleans(), "early_reset": st.sampled_from([False, False, True]),
+                                  "late": late_strategy(),
                                   "steps": st.lists(st.lists(pay, min_size=4, max_size=4), min_size=2, max_size=8)})
 
 
@@ -330,10 +642,21 @@ def tls_schedule_strategy():
                                   "hs": st.lists(hs, min_size=1, max_size=4),
                                   "reconn": st.lists(st.fixed_dictionaries({"conn": st.integers(0, 3), "step": st.integers(0, 5),
                                                                             "hs": hs}), max_size=2),
+                                  "late": late_strategy(),
                                   "steps": st.lists(st.lists(pay, min_size=4, max_size=4), min_size=2, max_size=8)})
+
+
+def dial_strategy():
+    hs = st.tuples(st.integers(0, 3), st.sampled_from([None, None, None, "ECONNRESET", "SSLEOF", "EPIPE", "ETIMEDOUT"])).map(list)
+    att = st.fixed_dictionaries({"waits": st.integers(0, 2), "die_at": st.sampled_from(DIE_AT),
+                                 "err": st.sampled_from(["ECONNRESET"] * 3 + fakenet.ERRNOS),
+                                 "greet": st.one_of(st.just(b""), st.binary(min_size=1, max_size=6)), "hs": hs})
+    return st.fixed_dictionaries({"k": st.just("dial"), "tls": st.booleans(), "attempts": st.lists(att, min_size=1, max_size=3),
+                                  "pay": st.binary(min_size=1, max_size=80)})
 
 
 def searches(tier):
     q = tier == "quick"
     return [("fault-schedules", schedule_strategy(), 1200 if q else 12000),
-            ("tls-server-schedules", tls_schedule_strategy(), 800 if q else 8000)]
+            ("tls-server-schedules", tls_schedule_strategy(), 800 if q else 8000),
+            ("client-dial-schedules", dial_strategy(), 600 if q else 6000)]
